@@ -450,6 +450,24 @@ class SStr(Sym):
         tail = z3.If(found, z3.SubString(self.t, i + sl, n), empty)
         return (mk_str(head, self.kind), mk_str(mid, self.kind), mk_str(tail, self.kind))
 
+    def rpartition(self, sep: Any) -> Any:
+        i = z3.LastIndexOf(self.t, _s(sep))
+        n = z3.Length(self.t)
+        sl = z3.Length(_s(sep))
+        found = i >= 0
+        empty = _strval('')
+        head = z3.If(found, z3.SubString(self.t, 0, i), empty)
+        mid = z3.If(found, _s(sep), empty)
+        tail = z3.If(found, z3.SubString(self.t, i + sl, n), self.t)
+        return (mk_str(head, self.kind), mk_str(mid, self.kind), mk_str(tail, self.kind))
+
+    def split(self, sep: Any = None, maxsplit: Any = -1) -> Any:
+        """str.split on a symbolic string: only through a model installed by the contract (Explorer.split_handler)."""
+        h = getattr(cur().ex, 'split_handler', None)
+        if h is None:
+            raise Unreached('split on a symbolic string without a split model')
+        return h(cur(), self, sep, maxsplit)
+
     def replace(self, old: Any, new: Any) -> Any:
         return mk_str(z3.ReplaceAll(self.t, _s(old), _s(new)), self.kind) if hasattr(z3, 'ReplaceAll') else _unreached('replace')
 
